@@ -16,6 +16,7 @@ package policy
 //@     forall j int :: 0 <= j && j < len(p) ==> ppasses(sem(p[j], n))
 //@
 //@ func (Policy).Match
+//@   ensures [C09] total: true
 //@   requires forall j int :: 0 <= j && j < len(p) ==> p[j] != nil && wfStmt(p[j])
 //@   ensures [C03,C05,C11] all: result0 == policyOK(p, node)
 //@   ensures [C09] leaf: !result0 ==> result1 != nil
@@ -25,6 +26,7 @@ package policy
 //@           decreases len(p) - k
 //@
 //@ func (Policy).PartialMatch
+//@   ensures [C09] total: true
 //@   requires forall j int :: 0 <= j && j < len(p) ==> p[j] != nil && wfStmt(p[j])
 //@   ensures [C11] all: result0 == policyPartialOK(p, node)
 //@   assigns [C20] nothing
@@ -137,6 +139,7 @@ package policy
 //@   trigger globM(p, s, a, x), globM(p, s, a, m)
 //@
 //@ func (glob).Match
+//@   ensures [C09] total: true
 //@   ensures [C13] language: result == globM(string(pattern), str, 0, 0)
 //@   assigns [C20] nothing
 //@   use star_absorbs, star_earlier
@@ -154,6 +157,7 @@ package policy
 //@ pure func wfGlob(p string, i int) bool =
 //@     (i < 0 || i >= len(p)) ? true : (p[i] == 92 ? (i+1 < len(p) && wfGlob(p, i+2)) : wfGlob(p, i+1))
 //@ func parseGlob
+//@   ensures [C09] total: true
 //@   ensures [C13] reject: (result1 == nil) == wfGlob(pattern, 0)
 //@   ensures [C13] same: result1 == nil ==> string(result0) == pattern
 //@   loop 0: invariant 0 <= i && i <= len(pattern)
@@ -165,6 +169,7 @@ package policy
 //@ pure func stmtKind(s Statement) string =
 //@     s is equality ? s.(equality).kind : (s is negation ? "not" : (s is connective ? s.(connective).kind : (s is wildcard ? "like" : (s is quantifier ? s.(quantifier).kind : ""))))
 //@ func FromIPLD
+//@   ensures [C09] total: true
 //@   requires node != nil
 //@   use node_sizes, node_list_children
 //@   ensures [C10] bounds: result1 == nil ==> intsInBounds(node)
